@@ -46,7 +46,8 @@ type Contract struct {
 	Labels map[*Clause]string
 	Lets   map[string]Expr
 	CallReqs []*CallReq // extra conditions at call sites inside this function
-	SendReqs []*Clause  // conditions on every value this function sends on a channel ("sent" names the value)
+	SendReqs []*Clause  // conditions on values this function sends on a channel ("sent" names the value)
+	SendSite []int      // per SendReqs entry: 0 = every send site, k = only the k-th send site in source order
 	Oracle bool     // executable transcription of the property used for counterexample search; not verified
 	Covers []string // function-key substrings whose failed obligations this oracle can witness
 }
@@ -193,11 +194,20 @@ func parseContractLines(sc *bufio.Scanner, path, pkgPath string) ([]*Contract, e
 			}
 			cur.CallReqs = append(cur.CallReqs, &CallReq{Callee: strings.TrimSpace(rc.text[:i]), C: c})
 		case "sendreq":
-			c, err := mk("sendreq", rc)
+			site := 0
+			text := rc.text
+			if i := strings.Index(text, " : "); i > 0 {
+				if k, err := strconv.Atoi(strings.TrimSpace(text[:i])); err == nil {
+					site = k
+					text = text[i+3:]
+				}
+			}
+			c, err := mk("sendreq", rawClause{"sendreq", text, rc.line})
 			if err != nil {
 				return nil, err
 			}
 			cur.SendReqs = append(cur.SendReqs, c)
+			cur.SendSite = append(cur.SendSite, site)
 		case "oracle":
 			cur.Oracle = true
 		case "covers":
